@@ -421,6 +421,7 @@ func runHandshake(k *mon.Case, ps *procState, o hsOpts) {
 		}
 	}
 	selfHangup := exp.refusedAt >= 0
+	streamEnded := false // the harness ended the remote's stream (otherwise the peer must hang up by itself)
 	if o.Lossy {
 		if !selfHangup || r.Bool() {
 			if r.Bool() {
@@ -428,16 +429,18 @@ func runHandshake(k *mon.Case, ps *procState, o hsOpts) {
 				pause()
 			}
 			remote.Close()
+			streamEnded = true
 		}
 	} else if !selfHangup {
 		remote.CloseWrite()
+		streamEnded = true
 	}
 	associate()
 
 	disconnected, stuckNoDisc, snap := ps.waitDone(p)
 	if !disconnected {
 		why := "after-eof"
-		if selfHangup && !o.Lossy {
+		if !streamEnded {
 			why = exp.reason
 		}
 		if !stuckNoDisc {
